@@ -4,7 +4,7 @@ from ..fdai import EnumV, AggV, K, SymV, RefV, Cell, Loc, TOP, load, snapshot
 from . import contrib as CB
 
 LEVEL = "other"
-TECHNIQUE = 'abstract device model (sa/rules/devmodel.py): *STB?, ScpiDevice::scpi_stb, IEEE4882::stb, *CLS, *ESE, *SRE, *OPC, *OPC?, *TST?, *RST, *WAI are interpreted by the FDAI engine on concrete device states; the answer and the final state are compared with the IEEE 488.2 section 11 status model over ESR/ESE pairs and SRE values covering every bit position x queue empty/non-empty x QUES/OPER summary x message-available (1632 states for *STB? in the quick tier); bit numbers from the StatusBit/EventStatusBit discriminants; documented wiring of cls/opc/stb checked on the example device (C13); census: no library code assigns Context.mav; the common-command leaves the macros declare (evaluated witness tree); provided device-trait methods analysed in place; history tables (sa/rules/histtable.py): sequences of whole messages and device-side events folded through Node::run on the witness device (its evaluated `const TREE`, the real scpi-contrib handlers, provided trait methods, queue and writers analysed in place), result, response and device state compared after every step with a reference model of the IEEE 488.2 / SCPI-99 status system - *ESE / *SRE / *STB? / *ESR? / *CLS / *OPC / *OPC? / *TST? / *RST / *WAI, failing messages, condition changes and enable writes, message-available both ways'
+TECHNIQUE = 'abstract device model (sa/rules/devmodel.py): *STB?, ScpiDevice::scpi_stb, IEEE4882::stb, *CLS, *ESE, *SRE, *OPC, *OPC?, *TST?, *RST, *WAI are interpreted by the FDAI engine on concrete device states; the answer and the final state are compared with the IEEE 488.2 section 11 status model over ESR/ESE pairs and SRE values covering every bit position x queue empty/non-empty x QUES/OPER summary x message-available (1632 states for *STB? in the quick tier); bit numbers from the StatusBit/EventStatusBit discriminants; documented wiring of cls/opc/stb checked on the example device (C13); census: no library code assigns Context.mav; the common-command leaves the macros declare (evaluated witness tree); provided device-trait methods analysed in place; history tables (sa/rules/histtable.py): sequences of whole messages and device-side events folded through Node::run on the witness device (its evaluated `const TREE`, the real scpi-contrib handlers, provided trait methods, queue and writers analysed in place), result, response and device state compared after every step with a reference model of the IEEE 488.2 / SCPI-99 status system - *ESE / *SRE / *STB? / *ESR? / *CLS / *OPC / *OPC? / *TST? / *RST / *WAI, failing messages, condition changes and enable writes, message-available both ways; STATus:PRESet steps in the status histories'
 LEVEL_TEXT = "For each start state the status byte is computed from the MIR and must equal: bit 2 iff the queue is non-empty, bit 3 / bit 7 iff the QUES / OPER summary (an enabled bit of the EVENT register, SCPI-99 vol. 1 9.1) is true, bit 4 iff message-available, bit 5 iff ESR & ESE != 0, bit 6 iff one of those is enabled in SRE - and nothing may change. *CLS must leave exactly ESR=0, both event registers 0 and an empty queue with every enable, filter, condition, ESE and SRE untouched; *ESE/*SRE store and read back a u8 and fail without side effect on a conversion error; *OPC sets bit 0 and queues -800; *OPC? answers 1; *TST? answers 0 or the self-test error's code; *RST/*WAI leave the status state alone."
 LEVEL_NOTE = "Not decided: histories beyond the enumerated ones (12 x 14 steps quick, 150 x 24 thorough); devices overriding the default stb/cls/opc. Trusted: rustc MIR, FDAI models."
 
